@@ -23,6 +23,8 @@ DROPPABLE = BUS_ELEMS + BRANCHES + FACTS + ["switch", "measurement", "bus"]
 # operation -> operation family used in failure signatures (one family per group of functions that share their
 # clean-up code)
 FAMILY = {
+    "drop_measurements_at_elements": "drop_references", "drop_controllers_at_elements": "drop_references",
+    "drop_controllers_at_buses": "drop_references",
     "drop_buses": "drop_buses", "drop_elements_at_buses": "drop_buses", "drop_switches_at_buses": "drop_buses",
     "drop_lines": "drop_branches", "drop_trafos": "drop_branches", "drop_inner_branches": "drop_branches",
     "drop_elements_simple": "drop_elements",
@@ -113,6 +115,12 @@ def enrich(net, extras, ctx, pp):
         elif f["t"] == "tcsc" and b != b2:
             pp.create_tcsc(net, b, b2, x_l_ohm=1.0, x_cvar_ohm=-10.0, set_p_to_mw=0.1, thyristor_firing_angle_degree=140.,
                            in_service=f.get("ins", False), name=ctx.name("tcsc"))
+    t3 = extras.get("add_t3")
+    if t3 and not len(net.trafo3w):
+        try:
+            _create_trafo3w(net, t3, ctx, pp)
+        except NoOp:
+            pass
     for s in extras.get("switches", []):
         try:
             _create_switch(net, s, ctx, pp)
@@ -158,6 +166,21 @@ def run_pf(net, mode, pp):
             return "results:dc-fallback"
         except Exception:
             return "results:none"
+
+
+def _create_trafo3w(net, op, ctx, pp):
+    buses = ix(net, "bus")
+    sel = sorted({pick(buses, op["a"]), pick(buses, op["b"]), pick(buses, op["c"])},
+                 key=lambda x: (-net.bus.vn_kv.at[x], x))
+    if len(sel) < 3:
+        raise NoOp("need three buses")
+    h, m, l = sel
+    return pp.create_transformer3w_from_parameters(
+        net, h, m, l, vn_hv_kv=float(net.bus.vn_kv.at[h]), vn_mv_kv=float(net.bus.vn_kv.at[m]),
+        vn_lv_kv=float(net.bus.vn_kv.at[l]), sn_hv_mva=20., sn_mv_mva=10., sn_lv_mva=10., vk_hv_percent=10.,
+        vk_mv_percent=10., vk_lv_percent=10., vkr_hv_percent=0.3, vkr_mv_percent=0.3, vkr_lv_percent=0.3,
+        pfe_kw=1.0, i0_percent=0.1, tap_side="hv", tap_neutral=0, tap_min=-2, tap_max=2, tap_pos=0,
+        tap_step_percent=1.5, tap_changer_type="Ratio", name=ctx.name("trafo3w"))
 
 
 def _create_switch(net, s, ctx, pp):
@@ -402,18 +425,7 @@ def apply_op(net, op, ctx, pp, aux):
             tap_max=2, tap_pos=0, tap_step_percent=1.5, tap_changer_type="Ratio", name=ctx.name("trafo"))
         info["edit"] = False
     elif o == "create_trafo3w":
-        buses = ix(net, "bus")
-        sel = sorted({pick(buses, op["a"]), pick(buses, op["b"]), pick(buses, op["c"])},
-                     key=lambda x: (-net.bus.vn_kv.at[x], x))
-        if len(sel) < 3:
-            raise NoOp("need three buses")
-        h, m, l = sel
-        pp.create_transformer3w_from_parameters(
-            net, h, m, l, vn_hv_kv=float(net.bus.vn_kv.at[h]), vn_mv_kv=float(net.bus.vn_kv.at[m]),
-            vn_lv_kv=float(net.bus.vn_kv.at[l]), sn_hv_mva=20., sn_mv_mva=10., sn_lv_mva=10., vk_hv_percent=10.,
-            vk_mv_percent=10., vk_lv_percent=10., vkr_hv_percent=0.3, vkr_mv_percent=0.3, vkr_lv_percent=0.3,
-            pfe_kw=1.0, i0_percent=0.1, tap_side="hv", tap_neutral=0, tap_min=-2, tap_max=2, tap_pos=0,
-            tap_step_percent=1.5, tap_changer_type="Ratio", name=ctx.name("trafo3w"))
+        _create_trafo3w(net, op, ctx, pp)
         info["edit"] = False
     elif o == "create_switch":
         _create_switch(net, op, ctx, pp)
@@ -455,7 +467,7 @@ def apply_op(net, op, ctx, pp, aux):
         tgt(target=tab, rows=sel)
         tb.drop_trafos(net, sel, table=tab)
     elif o == "drop_elements":
-        et = op["et"]
+        et = toward(net, op.get("toward"), op["ks"][0]) or fallback(net, op["et"])
         sel = picks(ix(net, et), op["ks"])
         tgt(target=et, rows=sel, family=drop_family(et))
         tb.drop_elements(net, et, sel)
@@ -474,6 +486,20 @@ def apply_op(net, op, ctx, pp, aux):
         sel = picks(ix(net, "bus"), op["ks"])
         tgt(target="bus", rows=sel)
         tb.drop_switches_at_buses(net, sel)
+    elif o == "drop_measurements_at_elements":
+        et = op["et"]
+        sel = None if op.get("all") else picks(ix(net, et), op["ks"])
+        tgt(target=et, rows=sel, edit=False)
+        tb.drop_measurements_at_elements(net, et, idx=sel)
+    elif o == "drop_controllers_at_elements":
+        et = op["et"]
+        sel = None if op.get("all") else picks(ix(net, et), op["ks"])
+        tgt(target=et, rows=sel, edit=False)
+        tb.drop_controllers_at_elements(net, et, idx=sel)
+    elif o == "drop_controllers_at_buses":
+        sel = picks(ix(net, "bus"), op["ks"])
+        tgt(target="bus", rows=sel, edit=False)
+        tb.drop_controllers_at_buses(net, sel)
     elif o == "drop_inner_branches":
         sel = picks(ix(net, "bus"), op["ks"])
         tgt(target="bus", rows=sel)
@@ -534,7 +560,7 @@ def apply_op(net, op, ctx, pp, aux):
         else:
             tb.reindex_buses(net, lk)
     elif o == "reindex_elements":
-        et = op["et"]
+        et = toward(net, op.get("toward"), op["ks"][0]) or fallback(net, op["et"])
         old = ix(net, et)
         if et == "group":
             old = sorted(set(old))
@@ -626,11 +652,44 @@ def apply_op(net, op, ctx, pp, aux):
     return net, info
 
 
+FALLBACK = ["trafo3w", "trafo", "line", "sgen", "load", "gen", "ext_grid"]
+
+
+def fallback(net, et):
+    """an operation drawn for an empty table is applied to the first non-empty table of a fixed preference list
+    (keeps histories applicable; the drawn table is used whenever it has rows)"""
+    if et in net and len(net[et]):
+        return et
+    for t in FALLBACK:
+        if len(net[t]):
+            return t
+    raise NoOp("empty")
+
+
+def toward(net, kind, k):
+    """table that is currently referenced by a controller / cost / measurement (None if there is none): lets a drawn
+    operation aim at rows that carry such references"""
+    if kind == "controller" and len(net.controller):
+        ets = [getattr(o, "element", None) for o in net.controller["object"].values]
+    elif kind == "cost":
+        ets = net.poly_cost.et.tolist() + net.pwl_cost.et.tolist()
+    elif kind == "measurement":
+        ets = [e for e in net.measurement.element_type.tolist() if e != "bus"]
+    elif kind == "t3":
+        ets = ["trafo3w"] if (net.switch.et == "t3").any() else []
+    else:
+        return None
+    ets = [e for e in ets if isinstance(e, str) and e in net and len(net[e])]
+    return ets[k % len(ets)] if ets else None
+
+
 def _cls(et):
     if et in BUS_ELEMS:
         return "bus_element"
     if et in FACTS:
         return "facts"
+    if et in ("impedance", "dcline"):
+        return "other_branch"
     return et
 
 
